@@ -1,7 +1,7 @@
 import LunarVerif.Spec.C06
 /-!
 Helper lemmas for C06, part 1: the ownership / exactly-once invariant `InvA`, preserved by every
-step of every thread as long as the context is not cancelled.
+step of every thread (shutdown included).
 
 A request in state `processing` is owned by exactly one of the processing loop and the TTL watcher
 (`StartProcessing` is the arbiter); only the owner signals the waiter, and signalling moves the
@@ -23,9 +23,7 @@ def holdsW : WPc → Nat → Prop
   | _, _ => False
 
 structure InvA (s : St) : Prop where
-  nc : s.cancelled = false
   np : s.panicked = false
-  lp : s.loop ≠ .exited ∧ ∀ t, s.loop ≠ .draining t
   own : ∀ i, (s.reqs i).st = .processing ↔ (holdsL s.loop i ∨ holdsW s.watcher i)
   excl : ∀ i, ¬ (holdsL s.loop i ∧ holdsW s.watcher i)
   wg : ∀ i, (s.reqs i).wg = if (s.reqs i).st = .processed then 0 else 1
@@ -38,17 +36,17 @@ structure InvA (s : St) : Prop where
             (s.reqs i).wg = 1 ∧ (s.reqs i).dones = 0 ∧ (s.reqs i).inMap = false
 
 local macro "inv_auto" : tactic =>
-  `(tactic| (constructor <;> (try intro j) <;> (try simp only [St.upd, St.emit, St.signal]) <;> grind [holdsL, holdsW, isReturned, isDraining]))
+  `(tactic| (constructor <;> (try intro j) <;> (try simp only [St.upd, St.emit, St.signal, St.enq]) <;> grind [holdsL, holdsW, isReturned, isDraining]))
 
 theorem invA_init (t0 : Nat) : InvA (St.init t0) := by
   constructor <;> simp [St.init, holdsL, holdsW]
 
 theorem invA_advance (s : St) (d : Nat) (h : InvA s) : InvA { s with now := s.now + d } := by
-  obtain ⟨nc, np, lp, own, excl, wg, dn, rt, rs, qk, gq, fresh⟩ := h
+  obtain ⟨np, own, excl, wg, dn, rt, rs, qk, gq, fresh⟩ := h
   constructor <;> assumption
 
 theorem invA_arrive (cfg : Cfg) (s : St) (p : Nat) (h : InvA s) : InvA (stepArrive cfg s p) := by
-  obtain ⟨nc, np, lp, own, excl, wg, dn, rt, rs, qk, gq, fresh⟩ := h
+  obtain ⟨np, own, excl, wg, dn, rt, rs, qk, gq, fresh⟩ := h
   have hn := fresh s.n (Nat.le_refl _)
   unfold stepArrive
   split
@@ -56,50 +54,49 @@ theorem invA_arrive (cfg : Cfg) (s : St) (p : Nat) (h : InvA s) : InvA (stepArri
   · inv_auto
 
 theorem invA_register (s : St) (i : Nat) (h : InvA s) : InvA (stepRegister s i) := by
-  obtain ⟨nc, np, lp, own, excl, wg, dn, rt, rs, qk, gq, fresh⟩ := h
+  obtain ⟨np, own, excl, wg, dn, rt, rs, qk, gq, fresh⟩ := h
   unfold stepRegister
   split
   · inv_auto
   · constructor <;> assumption
 
 theorem invA_push (s : St) (i : Nat) (h : InvA s) : InvA (stepPush s i) := by
-  obtain ⟨nc, np, lp, own, excl, wg, dn, rt, rs, qk, gq, fresh⟩ := h
+  obtain ⟨np, own, excl, wg, dn, rt, rs, qk, gq, fresh⟩ := h
   unfold stepPush
   split
   · inv_auto
   · constructor <;> assumption
 
 theorem invA_wake (s : St) (i : Nat) (h : InvA s) : InvA (stepWake s i) := by
-  obtain ⟨nc, np, lp, own, excl, wg, dn, rt, rs, qk, gq, fresh⟩ := h
+  obtain ⟨np, own, excl, wg, dn, rt, rs, qk, gq, fresh⟩ := h
   unfold stepWake
   split
   · inv_auto
   · constructor <;> assumption
 
 theorem invA_unwatch (s : St) (i : Nat) (h : InvA s) : InvA (stepUnwatch s i) := by
-  obtain ⟨nc, np, lp, own, excl, wg, dn, rt, rs, qk, gq, fresh⟩ := h
+  obtain ⟨np, own, excl, wg, dn, rt, rs, qk, gq, fresh⟩ := h
   unfold stepUnwatch
   split
   · inv_auto
   · constructor <;> assumption
 
 theorem invA_heapRemove (s : St) (i : Nat) (h : InvA s) : InvA (stepHeapRemove s i) := by
-  obtain ⟨nc, np, lp, own, excl, wg, dn, rt, rs, qk, gq, fresh⟩ := h
+  obtain ⟨np, own, excl, wg, dn, rt, rs, qk, gq, fresh⟩ := h
   unfold stepHeapRemove
   split
   · inv_auto
   · constructor <;> assumption
 
 theorem invA_loopFire (s : St) (h : InvA s) : InvA (stepLoopFire s) := by
-  obtain ⟨nc, np, lp, own, excl, wg, dn, rt, rs, qk, gq, fresh⟩ := h
+  obtain ⟨np, own, excl, wg, dn, rt, rs, qk, gq, fresh⟩ := h
   unfold stepLoopFire
   split
-  · rw [nc]
-    inv_auto
+  · split <;> inv_auto
   · constructor <;> assumption
 
 theorem invA_scan (cfg : Cfg) (s : St) (h : InvA s) : InvA (stepScan cfg s) := by
-  obtain ⟨nc, np, lp, own, excl, wg, dn, rt, rs, qk, gq, fresh⟩ := h
+  obtain ⟨np, own, excl, wg, dn, rt, rs, qk, gq, fresh⟩ := h
   unfold stepScan
   split
   · inv_auto
@@ -109,50 +106,69 @@ theorem invA_scan (cfg : Cfg) (s : St) (h : InvA s) : InvA (stepScan cfg s) := b
 
 theorem invA_loop_running_none (s : St) (heq : s.loop = .running) (h : InvA s) :
     InvA { s with loop := .idle } := by
-  obtain ⟨nc, np, lp, own, excl, wg, dn, rt, rs, qk, gq, fresh⟩ := h
+  obtain ⟨np, own, excl, wg, dn, rt, rs, qk, gq, fresh⟩ := h
   inv_auto
 
 theorem invA_loop_running_some (s : St) (m : HItem) (heq : s.loop = .running) (h : InvA s) :
     InvA (({ s with heap := s.heap.erase m, loop := .popped m.id }).emit (.pop m.id)) := by
-  obtain ⟨nc, np, lp, own, excl, wg, dn, rt, rs, qk, gq, fresh⟩ := h
+  obtain ⟨np, own, excl, wg, dn, rt, rs, qk, gq, fresh⟩ := h
   inv_auto
 
 theorem invA_loop_popped_ok (s : St) (i : Nat) (heq : s.loop = .popped i)
     (hg : (s.reqs i).inMap = true ∧ (s.reqs i).st = .enqueued) (h : InvA s) :
     InvA { (s.upd i fun r => { r with st := .processing }) with loop := .started i } := by
-  obtain ⟨nc, np, lp, own, excl, wg, dn, rt, rs, qk, gq, fresh⟩ := h
+  obtain ⟨np, own, excl, wg, dn, rt, rs, qk, gq, fresh⟩ := h
   inv_auto
 
 theorem invA_loop_popped_no (s : St) (i : Nat) (heq : s.loop = .popped i) (h : InvA s) :
     InvA { s with loop := .running } := by
-  obtain ⟨nc, np, lp, own, excl, wg, dn, rt, rs, qk, gq, fresh⟩ := h
+  obtain ⟨np, own, excl, wg, dn, rt, rs, qk, gq, fresh⟩ := h
   inv_auto
 
 theorem invA_loop_started (s : St) (i : Nat) (q' : Quota) (ok : Bool) (heq : s.loop = .started i) (h : InvA s) :
     InvA ((({ s with q := q', loop := if ok then .granted i else .refused i }).upd i
         fun r => { r with qok := ok }).emit (.qtry i ok)) := by
-  obtain ⟨nc, np, lp, own, excl, wg, dn, rt, rs, qk, gq, fresh⟩ := h
+  obtain ⟨np, own, excl, wg, dn, rt, rs, qk, gq, fresh⟩ := h
   have hp : (s.reqs i).st = .processing := (own i).2 (Or.inl (by simp [heq, holdsL]))
   cases ok <;> inv_auto
 
 theorem invA_loop_refused (s : St) (i : Nat) (heq : s.loop = .refused i) (h : InvA s) :
-    InvA (({ s with heap := ⟨i, (s.reqs i).prio, s.seq⟩ :: s.heap, seq := s.seq + 1,
-                     loop := .repushed i }).emit (.repush i)) := by
-  obtain ⟨nc, np, lp, own, excl, wg, dn, rt, rs, qk, gq, fresh⟩ := h
+    InvA (({ (s.enq i) with loop := .repushed i }).emit (.repush i)) := by
+  obtain ⟨np, own, excl, wg, dn, rt, rs, qk, gq, fresh⟩ := h
   inv_auto
 
 theorem invA_loop_repushed (s : St) (i : Nat) (heq : s.loop = .repushed i) (h : InvA s) :
     InvA { (s.upd i fun r => { r with st := .enqueued }) with loop := .idle } := by
-  obtain ⟨nc, np, lp, own, excl, wg, dn, rt, rs, qk, gq, fresh⟩ := h
+  obtain ⟨np, own, excl, wg, dn, rt, rs, qk, gq, fresh⟩ := h
   have hp : (s.reqs i).st = .processing := (own i).2 (Or.inl (by simp [heq, holdsL]))
   inv_auto
 
 theorem invA_loop_granted (s : St) (i : Nat) (heq : s.loop = .granted i) (h : InvA s) :
     InvA { (s.signal i .success) with loop := .running } := by
-  obtain ⟨nc, np, lp, own, excl, wg, dn, rt, rs, qk, gq, fresh⟩ := h
+  obtain ⟨np, own, excl, wg, dn, rt, rs, qk, gq, fresh⟩ := h
   have hp : (s.reqs i).st = .processing := (own i).2 (Or.inl (by simp [heq, holdsL]))
   have hw : (s.reqs i).wg = 1 := by rw [wg i, hp]; simp
   have hq := gq i heq
+  have hlt : ¬ ((s.reqs i).wg - 1 < 0) := by omega
+  unfold St.signal
+  simp only [hlt, if_false]
+  inv_auto
+
+theorem invA_loop_exit (s : St) (todo : List Nat) (heq : s.loop = .draining todo) (h : InvA s) :
+    InvA { s with loop := .exited } := by
+  obtain ⟨np, own, excl, wg, dn, rt, rs, qk, gq, fresh⟩ := h
+  inv_auto
+
+theorem invA_loop_drain_skip (s : St) (todo todo' : List Nat) (heq : s.loop = .draining todo) (h : InvA s) :
+    InvA { s with loop := .draining todo' } := by
+  obtain ⟨np, own, excl, wg, dn, rt, rs, qk, gq, fresh⟩ := h
+  inv_auto
+
+theorem invA_loop_drain_signal (s : St) (i : Nat) (todo todo' : List Nat) (heq : s.loop = .draining todo)
+    (hg : (s.reqs i).inMap = true ∧ (s.reqs i).st = .enqueued) (h : InvA s) :
+    InvA { (s.signal i .timeout) with loop := .draining todo' } := by
+  obtain ⟨np, own, excl, wg, dn, rt, rs, qk, gq, fresh⟩ := h
+  have hw : (s.reqs i).wg = 1 := by rw [wg i, hg.2]; simp
   have hlt : ¬ ((s.reqs i).wg - 1 < 0) := by omega
   unfold St.signal
   simp only [hlt, if_false]
@@ -181,29 +197,37 @@ theorem invA_loop (cfg : Cfg) (s : St) (k : Nat) (h : InvA s) : InvA (stepLoop c
   · rename_i i heq
     exact invA_loop_granted s i heq h
   · rename_i todo heq
-    exact absurd heq (h.lp.2 todo)
+    split
+    · split
+      · exact invA_loop_exit s todo heq h
+      · exact h
+    · rename_i i hk
+      split
+      · rename_i hg
+        exact invA_loop_drain_signal s i todo _ heq hg h
+      · exact invA_loop_drain_skip s todo _ heq h
 
 /-! #### the TTL watcher -/
 
 theorem invA_w_idle (s : St) (todo : List Nat) (heq : s.watcher = .scanned todo) (h : InvA s) :
     InvA { s with watcher := .idle } := by
-  obtain ⟨nc, np, lp, own, excl, wg, dn, rt, rs, qk, gq, fresh⟩ := h
+  obtain ⟨np, own, excl, wg, dn, rt, rs, qk, gq, fresh⟩ := h
   inv_auto
 
 theorem invA_w_skip (s : St) (todo todo' : List Nat) (heq : s.watcher = .scanned todo) (h : InvA s) :
     InvA { s with watcher := .scanned todo' } := by
-  obtain ⟨nc, np, lp, own, excl, wg, dn, rt, rs, qk, gq, fresh⟩ := h
+  obtain ⟨np, own, excl, wg, dn, rt, rs, qk, gq, fresh⟩ := h
   inv_auto
 
 theorem invA_w_take (s : St) (i : Nat) (todo todo' : List Nat) (heq : s.watcher = .scanned todo)
     (hg : (s.reqs i).inMap = true ∧ (s.reqs i).st = .enqueued) (h : InvA s) :
     InvA { (s.upd i fun r => { r with st := .processing }) with watcher := .holding i todo' } := by
-  obtain ⟨nc, np, lp, own, excl, wg, dn, rt, rs, qk, gq, fresh⟩ := h
+  obtain ⟨np, own, excl, wg, dn, rt, rs, qk, gq, fresh⟩ := h
   inv_auto
 
 theorem invA_w_timeout (s : St) (i : Nat) (todo : List Nat) (heq : s.watcher = .holding i todo) (h : InvA s) :
     InvA { (s.signal i .timeout) with watcher := .scanned todo } := by
-  obtain ⟨nc, np, lp, own, excl, wg, dn, rt, rs, qk, gq, fresh⟩ := h
+  obtain ⟨np, own, excl, wg, dn, rt, rs, qk, gq, fresh⟩ := h
   have hp : (s.reqs i).st = .processing := (own i).2 (Or.inr (by simp [heq, holdsW]))
   have hw : (s.reqs i).wg = 1 := by rw [wg i, hp]; simp
   have hlt : ¬ ((s.reqs i).wg - 1 < 0) := by omega
@@ -227,10 +251,14 @@ theorem invA_watcher (s : St) (k : Nat) (h : InvA s) : InvA (stepWatcher s k) :=
   · rename_i i todo heq
     exact invA_w_timeout s i todo heq h
 
-/-- A schedule without shutdown. -/
-def noCancel (acts : List Act) : Prop := Act.cancel ∉ acts
+theorem invA_cancel (s : St) (h : InvA s) : InvA (stepCancel s) := by
+  obtain ⟨np, own, excl, wg, dn, rt, rs, qk, gq, fresh⟩ := h
+  unfold stepCancel
+  split
+  · constructor <;> assumption
+  · inv_auto
 
-theorem invA_step (cfg : Cfg) (s : St) (a : Act) (ha : a ≠ .cancel) (h : InvA s) : InvA (step cfg s a) := by
+theorem invA_step (cfg : Cfg) (s : St) (a : Act) (h : InvA s) : InvA (step cfg s a) := by
   unfold step
   rw [h.np]
   simp only [Bool.false_eq_true, if_false]
@@ -246,15 +274,74 @@ theorem invA_step (cfg : Cfg) (s : St) (a : Act) (ha : a ≠ .cancel) (h : InvA 
   | loopStep k => exact invA_loop cfg s k h
   | wScan => exact invA_scan cfg s h
   | wStep k => exact invA_watcher s k h
-  | cancel => exact absurd rfl ha
+  | cancel => exact invA_cancel s h
 
-theorem invA_run (cfg : Cfg) (acts : List Act) (s : St) (hn : noCancel acts) (h : InvA s) :
-    InvA (run cfg s acts) := by
+theorem invA_run (cfg : Cfg) (acts : List Act) (s : St) (h : InvA s) : InvA (run cfg s acts) := by
+  induction acts generalizing s with
+  | nil => exact h
+  | cons a rest ih => exact ih (step cfg s a) (invA_step cfg s a h)
+
+/-- A schedule without shutdown. -/
+def noCancel (acts : List Act) : Prop := Act.cancel ∉ acts
+
+/-- Without shutdown the loop never drains. -/
+structure InvN (s : St) : Prop where
+  nc : s.cancelled = false
+  lp : s.loop ≠ .exited ∧ ∀ t, s.loop ≠ .draining t
+
+theorem invN_init (t0 : Nat) : InvN (St.init t0) := by
+  constructor <;> simp [St.init]
+
+theorem invN_step (cfg : Cfg) (s : St) (a : Act) (ha : a ≠ .cancel) (h : InvN s) : InvN (step cfg s a) := by
+  obtain ⟨nc, lp⟩ := h
+  unfold step
+  split
+  · exact ⟨nc, lp⟩
+  · cases a with
+    | cancel => exact absurd rfl ha
+    | advance d => exact ⟨nc, lp⟩
+    | arrive p => simp only [stepCore, stepArrive]; split <;> exact ⟨nc, lp⟩
+    | register i => simp only [stepCore, stepRegister]; split <;> exact ⟨nc, lp⟩
+    | push i => simp only [stepCore, stepPush]; split <;> exact ⟨nc, lp⟩
+    | wake i => simp only [stepCore, stepWake]; split <;> exact ⟨nc, lp⟩
+    | unwatch i => simp only [stepCore, stepUnwatch]; split <;> exact ⟨nc, lp⟩
+    | heapRemove i => simp only [stepCore, stepHeapRemove]; split <;> exact ⟨nc, lp⟩
+    | wScan => simp only [stepCore, stepScan]; split <;> exact ⟨nc, lp⟩
+    | loopFire =>
+      simp only [stepCore, stepLoopFire]
+      split
+      · split
+        · rename_i hc; rw [nc] at hc; cases hc
+        · exact ⟨nc, by simp⟩
+      · exact ⟨nc, lp⟩
+    | wStep k =>
+      simp only [stepCore, stepWatcher]
+      split
+      · exact ⟨nc, lp⟩
+      · split
+        · split <;> exact ⟨nc, lp⟩
+        · split <;> exact ⟨nc, lp⟩
+      · simp only [St.signal]; split <;> exact ⟨nc, lp⟩
+    | loopStep k =>
+      simp only [stepCore, stepLoop]
+      split
+      · exact ⟨nc, lp⟩
+      · exact ⟨nc, lp⟩
+      · split <;> exact ⟨nc, by simp [St.emit]⟩
+      · split <;> exact ⟨nc, by simp⟩
+      · refine ⟨nc, ?_⟩; simp only [St.emit, St.upd]; split <;> simp
+      · exact ⟨nc, by simp [St.emit, St.enq, St.upd]⟩
+      · exact ⟨nc, by simp⟩
+      · simp only [St.signal]; split <;> exact ⟨nc, by simp [St.emit, St.upd]⟩
+      · rename_i todo heq
+        exact absurd heq (lp.2 todo)
+
+theorem invN_run (cfg : Cfg) (acts : List Act) (s : St) (hn : noCancel acts) (h : InvN s) : InvN (run cfg s acts) := by
   induction acts generalizing s with
   | nil => exact h
   | cons a rest ih =>
     have ha : a ≠ .cancel := fun e => hn (by simp [e])
     have hr : noCancel rest := fun e => hn (by simp [e])
-    exact ih (step cfg s a) hr (invA_step cfg s a ha h)
+    exact ih (step cfg s a) hr (invN_step cfg s a ha h)
 
 end LunarVerif.C06
